@@ -89,7 +89,7 @@ pub const ALPHAS: [f64; 5] = [0.0, 0.3, 0.42, 0.55, 0.6];
 pub fn run(tier: Tier) -> i32 {
     let rep = Report::new("C06", tier, "model_checking");
     let nfreq = tier.pick(33usize, 257usize);
-    rep.set_rule("SCOPE: lattice of stationary mel-cepstra: vector lengths {2,3,4,5,10,25,35,40} x alpha {0,.3,.42,.55,.6} x c0 {-1,0,2} x shape patterns (each single coefficient +-, each adjacent pair, full {-1,0,1} product for length<=4) scaled to max|log H/K| in {0.5,1,2}; real Vocoder pulse response at F0=20Hz on a fresh vocoder, and on a stride of the lattice the last two frames of a run A,B,B,B (stationary after a change of gain and shape; also with A flat or with its upper half exactly zero) and, sparser, of slow glides from A to B over 300 and 2500 frames followed by B,B,B; oracle = DFT log-magnitude vs sum c_m cos(m w~) within 0.01 Np at every grid frequency; distinct = distinct (length, alpha, cepstrum); non-trivial = shape != 0");
+    rep.set_rule("SCOPE: lattice of stationary mel-cepstra: vector lengths {2,3,4,5,10,25,35,40} x alpha {0,.3,.42,.55,.6} x c0 {-1,0,2} (and -12, 8, 12 on every 7th pattern) x shape patterns (each single coefficient +-, each adjacent pair, full {-1,0,1} product for length<=4) scaled to max|log H/K| in {0.5,1,2}; real Vocoder pulse response at F0=20Hz on a fresh vocoder, and on a stride of the lattice the last two frames of a run A,B,B,B (stationary after a change of gain and shape; also with A flat or with its upper half exactly zero) and, sparser, of slow glides from A to B over 300 and 2500 frames followed by B,B,B; oracle = DFT log-magnitude vs sum c_m cos(m w~) within 0.01 Np at every grid frequency; distinct = distinct (length, alpha, cepstrum); non-trivial = shape != 0");
     rep.assume("cepstra off the lattice and |log H/K| > 2 are not explored; the digital filter does not depend on the nominal sampling rate, which is raised (8k..2M) only to lengthen T0 until the truncated tail is < 1e-7 of the peak");
     let mut cases: Vec<(usize, f64, f64, f64, Vec<f64>)> = Vec::new();
     let lens: Vec<usize> = if tier == Tier::Thorough { (2..=40).collect() } else { LENS.to_vec() };
@@ -101,6 +101,13 @@ pub fn run(tier: Tier) -> i32 {
                     for p in patterns(len) {
                         cases.push((len, alpha, c0, scale, p));
                     }
+                }
+            }
+            // "the response scales with exp(c_0)": very loud and very quiet gains on a few shapes (samples far outside
+            // and far inside any fixed-point range)
+            for &c0 in &[-12.0, 8.0, 12.0] {
+                for p in patterns(len).into_iter().step_by(7) {
+                    cases.push((len, alpha, c0, 1.0, p));
                 }
             }
         }
